@@ -372,7 +372,7 @@ def c05_maint_search(tier='quick'):
     import collections, re, shutil, tempfile
     exe = _build()
     runs = 0
-    for scen in ['plain-set-maint', 'plain-put-maint', 'plain-prune']:
+    for scen in ['plain-set-maint', 'plain-put-maint', 'plain-prune', 'plain-set-staletemp-maint', 'plain-put-staletemp-maint']:
         root = tempfile.mkdtemp(prefix='kvc05m_')
         wdir = os.path.join(root, 'w')
         tf = tempfile.NamedTemporaryFile(prefix='kvtrace', suffix='.log', delete=False)
@@ -393,9 +393,13 @@ def c05_maint_search(tier='quick'):
                     state = 2
                     continue
                 # a stat relative to the open cache directory: statx(3</root/w>, "name", ...)
-                if re.match(r'\d+<%s>, "[^/"]+"' % re.escape(wdir), rest):
+                # (or to its temporary subdirectory: statx(4</root/w/.kismet_temp>, "stale0", ...))
+                # the injection run counts what `strace -P <dir> -P <dir>/.kismet_temp` selects: calls that name one of the two
+                # directories through an annotated descriptor or as a path argument; the same selection is counted here
+                tdir = os.path.join(wdir, '.kismet_temp')
+                if any(('<%s>' % d) in rest or ('"%s"' % d) in rest for d in (wdir, tdir)):
                     rank[sc] += 1
-                    if state == 1:
+                    if state == 1 and re.match(r'\d+<%s(?:/\.kismet_temp)?>, "[^/"]+"' % re.escape(wdir), rest):
                         inside.append((sc, rank[sc]))
             if state != 2:
                 raise RuntimeError('c05m: no marker region in the trace of %s (strace unavailable?): %s' % (scen, p.stderr[-300:]))
@@ -411,7 +415,7 @@ def c05_maint_search(tier='quick'):
             tf = tempfile.NamedTemporaryFile(prefix='kvtrace', suffix='.log', delete=False)
             tf.close()
             try:
-                q = subprocess.run(['strace', '-f', '-qq', '-P', wdir, '-e', 'trace=' + sc, '-e', 'inject=%s:error=ENOENT:when=%d' % (sc, nth), '-o', tf.name,
+                q = subprocess.run(['strace', '-f', '-qq', '-P', wdir, '-P', os.path.join(wdir, '.kismet_temp'), '-e', 'trace=' + sc, '-e', 'inject=%s:error=ENOENT:when=%d' % (sc, nth), '-o', tf.name,
                                     exe, 'c02', 'run', root, scen], stdout=subprocess.PIPE, stderr=subprocess.PIPE, text=True, timeout=60)
                 injected = 'INJECTED' in open(tf.name, errors='replace').read()
                 if injected and '"ran":true' not in q.stdout:
